@@ -44,6 +44,7 @@ fn main() {
         }
         Some("smoke") => props::smoke(),
         Some("golden-gen") => props::c10::generate(),
+        Some("c20-inner") => props::c20::inner(&args[2..]),
         Some("c19-case") => props::c19::debug_case(args[2].parse().unwrap(), args[3].parse().unwrap(), &args[4]),
         Some("c17-worker") => props::c17::worker(&args[2..]),
         Some("suite") => props::run_suite(
